@@ -32,8 +32,9 @@ def _val(env, o):
     return env.get(p["l"])
 
 
-def eval_fn(body, seed, limit=400):
-    """run `body` with env seeded from {local: int}; returns (value of _0 at return | None, error string | None)"""
+def eval_fn(body, seed, limit=400, resolver=None, depth=0):
+    """run `body` with env seeded from {local: int}; returns (value of _0 at return | None, error string | None).
+    resolver(body, call term) -> closure Body for a call through Fn/FnMut/FnOnce (one byte argument), or None"""
     env = dict(seed)
     bi = 0
     for _ in range(limit):
@@ -59,6 +60,8 @@ def eval_fn(body, seed, limit=400):
                         env[d] = r2
             elif rv["k"] == "un" and rv.get("op") == "Not" and vals and vals[0] is not None:
                 env[d] = 0 if vals[0] else 1
+            elif rv["k"] == "agg" and rv.get("agg") == "tuple" and len(vals) == 1 and vals[0] is not None:
+                env[d] = vals[0]        # the one-element argument tuple of a closure call
             else:
                 env.pop(d, None)
         t = b["term"]
@@ -91,6 +94,16 @@ def eval_fn(body, seed, limit=400):
                 a = _val(env, t["args"][0])
                 if a is not None:
                     r = 0 if a else 1
+            elif d.endswith(("ops::function::Fn::call", "ops::function::FnMut::call_mut", "ops::function::FnOnce::call_once")) and resolver is not None \
+                    and len(t["args"]) == 2 and depth < 4:
+                a = _val(env, t["args"][1])
+                cb = resolver(body, t)
+                if a is not None and cb is not None:
+                    res = resolver(None, None)      # (the resolver factory for the callee)
+                    r, err = eval_fn(_DerefView(cb, cb.argc), {cb.argc: a}, limit, res(cb) if res else None, depth + 1)
+                    if err:
+                        return None, err
+                    r = 1 if r else 0
             if r is None:
                 return None, "call to %s is not evaluable at %s" % (nm, body.loc(bi))
             if not t["dst"]["proj"]:
@@ -106,14 +119,45 @@ def eval_fn(body, seed, limit=400):
     return None, "step limit"
 
 
-def accepted_bytes(body, param_local=None):
-    """set of byte values for which the predicate body returns true; the byte is the (deref of the) last parameter by default"""
+def make_resolver(db, body):
+    """resolver for closure calls inside `body` (a closure or function Body): the callee is a closure defined in the same body, or one
+    captured from the body that created `body`"""
+    def resolve(view, t):
+        if view is None:
+            return lambda cb: make_resolver(db, cb)
+        cur = getattr(view, "_b", view)
+        ch = flow.resolve_chain(cur, t["args"][0]) or []
+        for l, pr in ch:
+            for df in cur.defs().get(l, []):
+                if df["kind"] == "assign" and df["rv"]["k"] == "agg" and df["rv"].get("agg") == "closure":
+                    return db.body(df["rv"].get("def", ""))
+        # a captured closure: field k of the environment
+        if ch and ch[-1][0] == 1 and cur.kind == "Closure":
+            fs = [e for e in ch[-1][1] if e[0] == "f"]
+            par = db.body(cur.parent)
+            if fs and par is not None:
+                for _, _, st in par.stmts():
+                    rv = st["rv"]
+                    if rv["k"] == "agg" and rv.get("agg") == "closure" and rv.get("def") == cur.name and fs[0][1] < len(rv["ops"]):
+                        ch2 = flow.resolve_chain(par, rv["ops"][fs[0][1]]) or []
+                        for l2, _ in ch2:
+                            for df in par.defs().get(l2, []):
+                                if df["kind"] == "assign" and df["rv"]["k"] == "agg" and df["rv"].get("agg") == "closure":
+                                    return db.body(df["rv"].get("def", ""))
+        return None
+    return resolve
+
+
+def accepted_bytes(body, param_local=None, db=None):
+    """set of byte values for which the predicate body returns true; the byte is the (deref of the) last parameter by default.
+    db: when given, calls to other closures (local or captured) are evaluated too"""
     if param_local is None:
         param_local = body.argc
     # closures take (&env, byte) - the byte parameter may be a reference: its deref is read through a temp `_x = (*_p)`
     out = set()
+    resolver = make_resolver(db, body) if db is not None else None
     for v in range(256):
-        r, err = eval_fn(_DerefView(body, param_local), {param_local: v})
+        r, err = eval_fn(_DerefView(body, param_local), {param_local: v}, resolver=resolver)
         if err:
             return None, err
         if r:
@@ -151,3 +195,7 @@ class _DerefView:
 
     def loc(self, bi=None):
         return self._b.loc(bi)
+
+    @property
+    def argc(self):
+        return self._b.argc
